@@ -5,6 +5,11 @@
 //!   wh  HD SQ RG PG CO                        -> hex of the header text sam::io::Writer emits | Err
 //!   ph  hextext                               -> canonical dump of the header sam::io::Reader parses | Err
 //!   pr  refs ptab hexline                   -> canonical dump of the record sam::io::Reader parses | Err:<column>
+//!   lzc refs ptab ftab hexline              -> lazy optional fields: Data::iter collected | try_from_alignment_record (c06_part5.rs)
+//!   tb  nref <record fields...>             -> hex of the BAM block for the RecordBuf (bridge to the C05 model) | Err:<kind>
+//!   sf  ptab hextext                        -> whole SAM file read: header # records # Eof|Err:<column>
+//!   sfw HD SQ RG PG CO n <record fields>*n  -> hex of the whole SAM file sam::io::Writer emits | Err
+//!   (wh ph bwh bph lzv: see c06_part2.rs / c06_part4.rs)
 //! Implementation-only oracles (the property itself):
 //!   rt  seed n     header + n generated records: SAM write/read (eager + lazy), fixed point,
 //!                  BAM write/read, SAM->BAM->SAM, BAM->SAM->BAM
